@@ -15,8 +15,14 @@ TRUSTED = [
 
 # which kinds of C10 failure a recorded finding class stands for (other kinds on the same target are NOT absorbed)
 ABSORBS = {
+    # a nested class target is rewritten (same bytes) and reported modified on every run
     "written-definition-compares-unequal": {"flag-true-bytes-same", "print-modified-bytes-same", "again1"},
-    "found-definition-not-replaced": set(),
+    # a stale function / argparse function stays stale
+    "found-definition-not-replaced": {"interface"},
+    # Class.method is created/appended as a module-level function, and again on every run
+    "method-target-written-at-module-level": {"not-found", "wrong-type", "again1", "again2+", "statements"},
+    "module-docstring-reindented": {"module-docstring-only"},
+    "other-docstring-reformatted": {"docstrings-only"},
 }
 
 
@@ -46,23 +52,29 @@ def classify(res):
         if c0 is None:
             continue
         name = scn["names"][kd]
-        whole = bool(c0["found"] and not c0["cmp"] and c0["replaced"]) or bool(c1 and c1["found"] and not c1["cmp"] and c1["replaced"])
+        ce = next((c for c in ((res.get("edit") or {}).get("calls") or []) if c["file"].endswith("/" + fname)), None)
+        whole = any(bool(c and c["found"] and not c["cmp"] and c["replaced"]) for c in (c0, c1, ce))
         reqs.append(dumps([Sym("sync_class"), "." in name, obs_of(c0, name), opt(obs_of(c1, name) if c1 else None)]))
-        reqs.append(dumps([Sym("frame_class"), True, whole, "." in name, obs_of(c0, name), opt(obs_of(c1, name) if c1 else None)]))
+        reqs.append(dumps([Sym("frame_class"), True, False, whole, "." in name, obs_of(c0, name), opt(obs_of(c1, name) if c1 else None)]))
+        reqs.append(dumps([Sym("frame_class"), False, True, whole, "." in name, obs_of(c0, name), opt(obs_of(c1, name) if c1 else None)]))
         reqs.append(dumps([Sym("install_class"), "." in name, obs_of(c0, name)]))
+        # the run after the truth was edited is judged like a first run, on its own call
+        reqs.append(dumps([Sym("install_class"), "." in name, obs_of(ce if ce is not None else c0, name)]))
         keys.append(k)
     out = {}
     if reqs:
         outs = run_model(reqs)
         for idx, k in enumerate(keys):
-            e, e2, e3 = loads(outs[3 * idx]), loads(outs[3 * idx + 1]), loads(outs[3 * idx + 2])
+            e, e2, e5, e3, e4 = (loads(outs[5 * idx + j]) for j in range(5))
+            out[(k, "edit")] = None if e4 == "none" else unhx(e4[1])
+            out[(k, "docstrings-only")] = None if e5 == "none" else unhx(e5[1])
             out[(k, "repeat")] = None if e == "none" else unhx(e[1])
             out[(k, "module-docstring-only")] = None if e2 == "none" else unhx(e2[1])
             out[(k, "install")] = None if e3 == "none" else unhx(e3[1])
     return out
 
 
-def evaluate(rng, tier, judge, n_quick=110, n_thorough=1500, runs=3, cli_share=0.12):
+def evaluate(rng, tier, judge, n_quick=150, n_thorough=1500, runs=3, cli_share=0.12):
     n = n_quick if tier == "quick" else n_thorough
     failures, hist, samples = [], collections.Counter(), []
     seen = set()
@@ -98,16 +110,20 @@ def evaluate(rng, tier, judge, n_quick=110, n_thorough=1500, runs=3, cli_share=0
             k = f["facts"]["kind"]
             if not truth_found:
                 cls = "truth-definition-not-found"
-            elif f.get("kind") == "module-docstring-only" and (k, "module-docstring-only") in classes:
-                cls = classes[(k, "module-docstring-only")]
+            elif f["kind"] in ("module-docstring-only", "docstrings-only") and (k, f["kind"]) in classes:
+                cls = classes[(k, f["kind"])]
             elif (k, "install") in classes:
-                # what happens in the first run is judged against the first call alone; later runs against both
+                # what happens in the first run is judged against the first call alone; a repetition against the first
+                # two calls; the run after the truth was edited against its own call.  What went wrong when the target
+                # was installed persists (a method written at module level stays there), so the class of the first
+                # run is tried last.  A class stands only for the ways of failing listed in ABSORBS.
                 first_run = f["facts"].get("run", 0) == 0
-                cls = classes[(k, "install")] if first_run else classes[(k, "repeat")]
+                cand = [classes[(k, "install")]] if first_run else \
+                    [classes.get((k, "edit")), classes[(k, "install")]] if f.get("phase") == "edit" else \
+                    [classes[(k, "repeat")], classes[(k, "install")]]
+                cls = next((c for c in cand if c is not None and f["kind"] in ABSORBS.get(c, (f["kind"],))), None)
             else:
                 cls = None
-            if cls in ABSORBS and f.get("kind") is not None and f["kind"] not in ABSORBS[cls]:
-                cls = None      # a different way to fail than the recorded finding: not absorbed by it
             hist["fail:%s" % (cls or "UNCLASSIFIED")] += 1
             failures.append({"case": {"scenario": scn, "target": f["target"]}, "what": f["what"], "class": cls})
     return {"evaluations": n, "distinct_nontrivial": len(seen),
